@@ -2,8 +2,8 @@
    - the values of a run (c, vs) of a one-run-per-chromosome input are exactly the input's values
      for c, in input order (run_values);
    - the names of the runs are the chromosomes in first-appearance order (run_names);
-   - when the writer's chromosome order check is on (o_sort_all), acceptance itself implies one run
-     per chromosome (sorted_input_grouped). *)
+   - acceptance itself implies one run per chromosome, for every sort mode (since /repo 6b10d42 a
+     chromosome whose run reappears is refused): BigWigFileThms.write_grouped. *)
 From Coq Require Import Sorting.Sorted.
 From BT Require Import Base.Util Base.Float Model.RTree Model.BBIFile Model.BigWigWrite
   Proofs.BigWigFile Proofs.BigWigFileChroms Proofs.BigWigFileRoundTrip.
@@ -96,51 +96,6 @@ Proof.
   destruct inp as [|[c v] l]; [reflexivity|]. cbn [runs map fst]. rewrite runs_aux_names. apply squeeze_first_app.
 Qed.
 
-(* ---------- the order check implies one run per chromosome ---------- *)
-Definition name_lt (a b : name) : Prop := name_cmp a b = Lt.
-Lemma name_lt_trans : forall a b c, name_lt a b -> name_lt b c -> name_lt a c.
-Proof.
-  unfold name_lt. induction a as [|x a IH]; intros [|y b] [|z c]; cbn [name_cmp]; try discriminate; try reflexivity.
-  destruct (x ?= y) eqn:E1; try discriminate; destruct (y ?= z) eqn:E2; try discriminate; intros H1 H2.
-  - apply N.compare_eq_iff in E1, E2. subst. rewrite N.compare_refl. eapply IH; eauto.
-  - apply N.compare_eq_iff in E1. subst. now rewrite E2.
-  - apply N.compare_eq_iff in E2. subst. now rewrite E1.
-  - rewrite N.compare_lt_iff in E1, E2. replace (x ?= z) with Lt by (symmetry; apply N.compare_lt_iff; lia). reflexivity.
-Qed.
-Lemma name_lt_irrefl a : ~ name_lt a a.
-Proof. unfold name_lt. intros H. rewrite (proj2 (name_cmp_eq a a) eq_refl) in H. discriminate. Qed.
-
-Lemma process_runs_sorted o sizes : o_sort_all o = true -> forall rs prev ids0 r,
-  process_runs o sizes prev ids0 rs = Ok r ->
-  match prev with Some p => Forall (name_lt p) (map fst rs) | None => True end
-  /\ StronglySorted name_lt (map fst rs).
-Proof.
-  intros Hs. induction rs as [|[c vals] rest IH]; intros prev ids0 r H.
-  - split; [destruct prev; constructor|constructor].
-  - cbn [process_runs] in H. rewrite Hs in H.
-    destruct (negb _) eqn:En; [discriminate|]. destruct (lookup c sizes) as [len|]; [|discriminate].
-    destruct (get_id ids0 c) as [ids' id]. destruct (check_chrom len vals) as [[]| | |]; cbn [rbind] in H; try discriminate.
-    destruct (process_runs o sizes (Some c) ids' rest) as [[ids'' outs]| | |] eqn:Er; cbn [rbind] in H; try discriminate.
-    destruct (IH _ _ _ Er) as [Hf Hss]. cbn [map fst]. split.
-    + destruct prev as [p|]; [|exact I]. apply negb_false_iff in En.
-      assert (Hpc : name_lt p c) by (unfold name_lt; destruct (name_cmp p c); try discriminate; reflexivity).
-      constructor; [exact Hpc|]. eapply Forall_impl; [|exact Hf]. intros x Hx. eapply name_lt_trans; eauto.
-    + constructor; assumption.
-Qed.
-
-Lemma SSorted_name_lt_NoDup l : StronglySorted name_lt l -> NoDup l.
-Proof.
-  induction 1 as [|x l Hs IH Hf]; [constructor|]. constructor; [|exact IH].
-  intros Hin. rewrite Forall_forall in Hf. exact (name_lt_irrefl x (Hf x Hin)).
-Qed.
-
-Theorem sorted_input_grouped fp o sizes inp r : o_sort_all o = true ->
-  bw_collect fp o sizes inp = Ok r -> NoDup (map fst (runs inp)).
-Proof.
-  intros Hs H. destruct r as [[[ids outs] sum] data]. destruct (bw_collect_inv _ _ _ _ _ _ _ _ H) as (_ & Hp & _).
-  apply SSorted_name_lt_NoDup. exact (proj2 (process_runs_sorted o sizes Hs _ _ _ _ Hp)).
-Qed.
-
 (* ---------- the round trip stated on the input itself ---------- *)
 From BT Require Import Base.LE Model.BBIRead Proofs.BigWigQuery Proofs.RTreeCodec Proofs.BigWigFileThms.
 
@@ -160,45 +115,29 @@ Proof.
   now rewrite <- (run_values inp c vs Hnd Hin).
 Qed.
 
-(* everything [input_ok] asks except "one run per chromosome" *)
-Definition input_fields_ok (sizes : list (name * N)) (inp : list item) : Prop :=
-  Forall (fun c : name => no_zero c /\ Nlen c < U32) (map fst (runs inp))
-  /\ Nlen (runs inp) < U16
-  /\ Forall (fun s => snd s < U32) sizes
-  /\ Forall (fun it : item => v_bits (snd it) < U32) inp.
-
 Section OnInput.
 Variables (fp : fpmode) (o : opts) (sizes : list (name * N)) (inp : list item) (bs : list N).
 Hypothesis Ho : opts_ok o.
-Hypothesis Hf : input_fields_ok sizes inp.
+Hypothesis Hf : input_ok sizes inp.
 Hypothesis Hs : Nlen bs < U64.
 Hypothesis Hw : bw_write fp o sizes inp = Ok bs \/ bw_write_multipass fp o sizes inp = Ok bs.
-(* one run per chromosome: either assumed, or implied by the writer's own order check *)
-Hypothesis Hg : NoDup (map fst (runs inp)) \/ o_sort_all o = true.
 
+(* one run per chromosome: implied by acceptance (a chromosome whose run reappears is refused) *)
 Lemma on_input_grouped : NoDup (map fst (runs inp)).
-Proof.
-  destruct Hg as [H|H]; [exact H|]. destruct Hw as [W|W].
-  - destruct (bw_write_inv _ _ _ _ _ W) as (ids & outs & sum & data & zooms & Hcol & _).
-    exact (sorted_input_grouped _ _ _ _ _ H Hcol).
-  - destruct (bw_write_multipass_inv _ _ _ _ _ W) as (ids & outs & sum & data & Hcol & _).
-    exact (sorted_input_grouped _ _ _ _ _ H Hcol).
-Qed.
-Lemma on_input_ok : input_ok sizes inp.
-Proof. split; [exact on_input_grouped|exact Hf]. Qed.
+Proof. exact (write_grouped fp o sizes inp bs Hw). Qed.
 
 Theorem on_input_chroms i : read_info bs = Ok i ->
   i_chroms i = map (ci_of sizes) (number 0 (first_app (map fst inp))).
 Proof.
   intros Hri. rewrite <- (run_names inp on_input_grouped).
-  exact (roundtrip_chroms sizes inp bs i (write_roundtrip_for fp o sizes inp bs Ho on_input_ok Hs Hw) Hri).
+  exact (roundtrip_chroms sizes inp bs i (write_roundtrip_for fp o sizes inp bs Ho Hf Hs Hw) Hri).
 Qed.
 
 Theorem on_input_query i infl c s e : read_info bs = Ok i -> In c (map fst inp) ->
   bw_interval infl bs i c s e = Ok (clip_filter s e (vals_of inp c)).
 Proof.
   intros Hri Hin.
-  exact (roundtrip_query sizes inp bs i infl c _ s e (write_roundtrip_for fp o sizes inp bs Ho on_input_ok Hs Hw) Hri
+  exact (roundtrip_query sizes inp bs i infl c _ s e (write_roundtrip_for fp o sizes inp bs Ho Hf Hs Hw) Hri
            (chrom_has_run inp c on_input_grouped Hin)).
 Qed.
 
@@ -206,6 +145,6 @@ Theorem on_input_roundtrip i infl c len : read_info bs = Ok i -> In c (map fst i
   bw_interval infl bs i c 0 len = Ok (filter (fun v => negb (boundary_zero len v)) (vals_of inp c)).
 Proof.
   intros Hri Hin Hl.
-  exact (write_full_span fp o sizes inp bs Ho on_input_ok Hs Hw i infl c _ len Hri (chrom_has_run inp c on_input_grouped Hin) Hl).
+  exact (write_full_span fp o sizes inp bs Ho Hf Hs Hw i infl c _ len Hri (chrom_has_run inp c on_input_grouped Hin) Hl).
 Qed.
 End OnInput.
